@@ -82,7 +82,7 @@ Fixpoint uscan (p : pool) (now timeout : Z) (l : list ublock) : list ublock * li
 
 Lemma scan_units : forall p now timeout l,
   Forall ub_wf l -> Forall (ub_honest p) l ->
-  scan false p now timeout (map pd_of l) =
+  scan p now timeout (map pd_of l) =
   match uscan p now timeout l with (k, t, e) => Ok (map pd_of k, map pd_of t, e) end.
 Proof.
   intros p now timeout l. induction l as [|u l IH]; intros W H; simpl; [reflexivity|].
@@ -105,7 +105,6 @@ Qed.
 
 (** the whole tick *)
 Lemma tick_units : forall c p now st l,
-  c_noval c = false ->
   st_pend st = map pd_of l -> Forall ub_wf l -> Forall (ub_honest p) l ->
   tick_raw c p now st =
   match uscan p now (c_timeout c) l with
@@ -114,7 +113,7 @@ Lemma tick_units : forall c p now st l,
           e ++ flat_map (ureq (st_height st)) t)
   end.
 Proof.
-  intros c p now st l NV E W H. unfold tick_raw. rewrite NV, E, (scan_units p now (c_timeout c) l W H).
+  intros c p now st l E W H. unfold tick_raw. rewrite E, (scan_units p now (c_timeout c) l W H).
   destruct (uscan p now (c_timeout c) l) as [[k t] e]. rewrite requests_units. reflexivity.
 Qed.
 
@@ -139,7 +138,11 @@ Lemma arrival_units : forall c p now from pub b miner es st,
   else Ok (mkSt (st_filter st) (st_pend st ++ [pd_of (ub_upd p u)]) (st_reqs st) (st_height st), []).
 Proof.
   intros c p now from pub b miner es st W C1 C2 H u.
-  unfold add_lt, build_lt. cbn [lt_hdr lt_miner lt_sh h_txcount h_height h_hash h_rest].
+  unfold add_lt, build_lt, lt_txcount. cbn [lt_hdr lt_miner lt_sh h_txcount h_height h_hash h_rest].
+  rewrite map_length.
+  replace (Z.of_nat (length (ob_txs b)) <=? 0) with false
+    by (symmetry; apply Z.leb_gt; rewrite W; cbn [length]; lia).
+  rewrite Z.ltb_irrefl. cbn [orb].
   unfold go_make.
   replace (Z.of_nat (length (ob_txs b)) <? 0) with false by (symmetry; apply Z.ltb_ge; lia).
   replace (max_len <? Z.of_nat (length (ob_txs b))) with false by (symmetry; apply Z.ltb_ge; lia).
